@@ -31,6 +31,21 @@ def fold(v):
     return v
 
 
+def reachable(nl):
+    out = set()
+    t = nl.top_instance
+    stack = [t.reference] if t is not None and t.reference is not None else []
+    while stack:
+        D = stack.pop()
+        if D.name in out:
+            continue
+        out.add(D.name)
+        for I in D.children:
+            if I.reference is not None:
+                stack.append(I.reference)
+    return out
+
+
 class C04(Prop):
     ID = "C04"
     RULE = ("netlists produced by the Verilog reader from the independent writer's sources (C06 domain: "
@@ -109,6 +124,12 @@ class C04(Prop):
             res.label("transform-raised")
             return res
         before = fold(gen_verilog.view(nl))
+        keep = None
+        if tr == "flatten":
+            # flatten leaves the emptied shell definitions behind (ports without nets, not
+            # expressible in Verilog and not part of the design any more): compare what the top uses
+            keep = reachable(nl)
+            before["mods"] = {k: v for k, v in before["mods"].items() if k in keep}
         with tempfile.TemporaryDirectory() as td:
             path = os.path.join(td, "out.v")
             try:
@@ -125,6 +146,8 @@ class C04(Prop):
                             "%r\n%s" % (e, text2[:1500]))
                 return res
         after = fold(gen_verilog.view(nl2))
+        if keep is not None:
+            after["mods"] = {k: v for k, v in after["mods"].items() if k in keep}
         # only what is reachable from the top is written: compare the written modules
         compare_views(res, "C04", before, after)
         if res.violations:
